@@ -78,6 +78,14 @@ var alphabet = []alphaTok{
 	{"1.", "1."},
 	{"0x", "0x"},
 	{"1__0", "1__0"},
+	// qualified-name spellings (round 5): names whose segments lex as keywords are merged into one
+	// IDENTIFIER by a separate preprocessor loop; the merged token's text must be the source text at
+	// its span. The lone separator composes further spellings with the other symbols ("" joiner).
+	{`\`, `\`},
+	{`\match\Foo`, `\match\Foo`},
+	{`\list\X\Y`, `\list\X\Y`},
+	{`namespace\Foo`, `namespace\Foo`},
+	{`A\function\B`, `A\function\B`},
 }
 
 const nStress = 24 // the position-stress alphabet proper
@@ -452,7 +460,7 @@ func main() {
 	if len(outcomes) < 3 || tokens < 1000 || programs < 100 {
 		c.HarnessError("vacuous: outcomes=%d tokens=%d programs=%d", len(outcomes), tokens, programs)
 	}
-	c.Finish(inputs+programs, lexes+programs, inputs+programs, fmt.Sprintf("span clause: %d corpus files + their token-boundary prefixes + all strings of <= 3 tokens over the whole alphabet (24 position-stress + 9 keyword-case + 10 number-spelling symbols) and of <= %d tokens over its 24 position-stress symbols (x2 joiners x4 lexing set-ups), every top-level token compared with the source text; multi-line lexeme family: every lexeme kind that can contain a newline (plain, template and HtmlLexer) x every body of <= %d atoms x pres x followers, same span oracle, and an undefined-function call planted after each lexeme with a body of <= %d atoms; location clause: fault kind x position x filler kind x mode", len(files), maxLen, mlSpanLen, mlLocLen))
+	c.Finish(inputs+programs, lexes+programs, inputs+programs, fmt.Sprintf("span clause: %d corpus files + their token-boundary prefixes + all strings of <= 3 tokens over the whole alphabet (24 position-stress + 9 keyword-case + 10 number-spelling + 5 qualified-name symbols) and of <= %d tokens over its 24 position-stress symbols (x2 joiners x4 lexing set-ups), every top-level token compared with the source text; multi-line lexeme family: every lexeme kind that can contain a newline (plain, template and HtmlLexer) x every body of <= %d atoms x pres x followers, same span oracle, and an undefined-function call planted after each lexeme with a body of <= %d atoms; location clause: fault kind x position x filler kind x mode", len(files), maxLen, mlSpanLen, mlLocLen))
 }
 
 func replay(c *ev.Check) {
